@@ -107,6 +107,8 @@ SCRIPTS = {
     'destroy-in-window': dict(script='deq.timer.unlocked:set:parked,deq.timer.unlocked:sleep:150000', send='', sendwhen='', stopwhen='parked'),
     # the same with a delivery that takes long: destruction has to wait for it however long it takes
     'destroy-in-long-window': dict(script='deq.timer.unlocked:set:parked,deq.timer.unlocked:sleep:600000', send='', sendwhen='', stopwhen='parked'),
+    # reset() while the timer thread is parked in a delivery: it has to wait for that delivery without holding what the delivery needs
+    'reset-in-window': dict(script='deq.timer.unlocked:set:parked,deq.timer.unlocked:sleep:150000', send='', sendwhen='', stopwhen='parked', atstop='reset'),
 }
 
 
@@ -198,7 +200,11 @@ def run_script(job):
         return rec
     ticks = sum(1 for x in recs if x[3] == 'E' and x[4].split(' ')[1] == 'tick')
     rec['outcome'] = ticks
-    if ticks > 1: rec['bad'].append(('double-delivery:' + name, {'deliveries': ticks}))
+    if name == 'reset-in-window':
+        # the session starts over after reset(): one tick per session at most, and reset() must have returned
+        if rec['reached'] and not any(x[3] == 'RESET' and x[4] == 'end' for x in recs): rec['bad'].append(('reset-did-not-return:' + name, {}))
+        if ticks > 2: rec['bad'].append(('double-delivery:' + name, {'deliveries': ticks}))
+    elif ticks > 1: rec['bad'].append(('double-delivery:' + name, {'deliveries': ticks}))
     if flavour == 'tsan':
         att, un = thr.tsan_reports(r['err'], ANCHORS)
         for sig, c in att.items(): rec['bad'].append(('tsan:' + sig[:150], {'count': c, 'script': name, 'report': r['err'][:3500]}))
@@ -239,7 +245,7 @@ def main(tier, replay):
     shutil.rmtree(outdir, ignore_errors=True)
     chk.add('deliveries_checked', deliveries); chk.add('forced_windows_reached', dict(reached)); chk.add('script_outcomes', dict(outcomes)); chk.add('distinct_interleaving_signatures', len(sigs))
     chk.rule = ('timing charts: 4-14 delayed sends (5-400 ms, ms/s/unit-less forms, ids, a quarter of them to #_internal, some to targets that do not exist) and cancels, stepper polling (20 ms) or really blocking (3 s) in step(), run on plain/tsan/asan builds, both engines; not-early (2 ms) and exactly-once are hard checks, order/cancel rules use a 50 ms margin. '
-                'forced-window scripts (6) park the timer thread at deq.timer.entry / deq.timer.unlocked while <cancel> or destruction runs. distinct_nontrivial = runs without violation')
+                'forced-window scripts (8) park the timer thread at deq.timer.entry / deq.timer.unlocked while <cancel>, reset() or destruction runs. distinct_nontrivial = runs without violation')
     chk.assumptions = ['lateness is never a violation', 'a hang is reported with two gdb stack samples; forced scripts that never reach their window make the run inconclusive']
     chk.min_distinct = 10
     chk.finish()
